@@ -1680,3 +1680,32 @@ def with_uring(case, rng, p=0.35):
                 steps.append(["flen", st[1], st[2]])
     c = {"cfg": dict(case["cfg"]), "steps": steps, "flavour": case.get("flavour", "") + "+uring"}
     return c
+
+
+def uring_fsync_scenarios(rng):
+    """Deterministic family for C07: a durable file with data-synced contents, new contents written
+    through one handle / front-end, a data sync through ANOTHER descriptor of the same file (read-only,
+    write-only, append-only, read-write; std or tokio handle; ring Fsync or the shim's sync_all /
+    sync_data), then a crash: the contents after the crash are those of the last data sync of the
+    file through any front-end and any descriptor.  sync_probability 0 (no coin is drawn)."""
+    out = []
+    writers = [("rw", ""), ("w", "@t"), ("a", "@u"), ("rw", "@u"), ("wa", "")]
+    for wflags, wfe in writers:
+        for sflags in ("r", "w", "a", "rw", "ra"):
+            for stok in (False, True):
+                for sync in ("sync_all@u", "sync_all", "sync_data", None):
+                    if sync != "sync_all@u" and (stok or rng.random() < 0.5):
+                        continue
+                    st = [["mkdir", 0, "/d"], ["sync_dir", 0, "/"],
+                          ["open", 0, 1, "/d/a", "rwc"], ["write_at", 0, 1, 0, [103, 101, 110, 49]], ["sync_all", 0, 1],
+                          ["close", 0, 1], ["sync_dir", 0, "/d"],
+                          ["open", 0, 2, "/d/a", wflags + ("k" if wfe == "@t" else "")],
+                          ["write_at" + wfe, 0, 2, 0, [103, 101, 110, 50, 33]],
+                          ["open", 0, 3, "/d/a", sflags + ("k" if stok else "")]]
+                    if sync:
+                        st.append([sync if not (stok and sync != "sync_all@u") else sync + "@t", 0, 3])
+                    if rng.random() < 0.5:
+                        st.append(["write_at" + wfe, 0, 2, 1, [88]])
+                    st += [["dump", 0], ["crash", 0], ["dump", 0]]
+                    out.append({"cfg": base_cfg(rng, 1), "steps": st, "flavour": "uring-fsync-scenario"})
+    return out
